@@ -190,6 +190,9 @@ OuterLoop:
 				if size+txSize >= maxBytes {
 					// Push remaining transactions back to the queue
 					s.pendingTxs.Push(res.Data[i:], res.IDs[i:], res.Timestamp)
+					// this height is fully accounted for (released or queued):
+					// scanning it again would release its transactions twice
+					nextDAHeight++
 					break OuterLoop
 				}
 				resp.Batch.Transactions = append(resp.Batch.Transactions, tx)
